@@ -391,4 +391,142 @@ theorem shouldBuild_eq_spec (U : Nat → Bool) (c : Bytes) (tags : Tags) :
     generalize evalLine tags (parseLine U args) = v
     cases v <;> decide
 
+/-! ### MatchFile -/
+
+theorem tagRunesOK_ascii (U : Nat → Bool) : ∀ (t : Bytes), t.all (fun b => decide (b < 0x80) && asciiTagByte b) = true →
+    tagRunesOK U t 0 = true := by
+  intro t
+  induction t with
+  | nil => intro _; simp [tagRunesOK]
+  | cons b rest ih =>
+    intro h
+    simp only [List.all_cons, Bool.and_eq_true, decide_eq_true_eq] at h
+    unfold tagRunesOK
+    simp only [h.1.1, if_true, h.1.2, Bool.true_and]
+    exact ih h.2
+
+theorem knownOS_ascii : (fields goosList).all (fun t => !t.isEmpty && t.all (fun b => decide (b < 0x80) && asciiTagByte b)) = true := by
+  decide
+theorem knownArch_ascii : (fields goarchList).all (fun t => !t.isEmpty && t.all (fun b => decide (b < 0x80) && asciiTagByte b)) = true := by
+  decide
+
+theorem known_valid (U : Nat → Bool) (t : Bytes) (h : knownOS t = true ∨ knownArch t = true) :
+    validName U t = true := by
+  have key : ∀ (L : List Bytes), L.all (fun t => !t.isEmpty && t.all (fun b => decide (b < 0x80) && asciiTagByte b)) = true →
+      L.contains t = true → validName U t = true := by
+    intro L hall hc
+    have hm : t ∈ L := by simpa using hc
+    have := (List.all_eq_true.mp hall) t hm
+    simp only [Bool.and_eq_true] at this
+    unfold validName
+    simp only [this.1, Bool.true_and]
+    exact tagRunesOK_ascii U t this.2
+  rcases h with h | h
+  · exact key _ knownOS_ascii h
+  · exact key _ knownArch_ascii h
+
+theorem fileSel_known (U : Nat → Bool) (tags : Tags) (t : Bytes) (h : knownOS t = true ∨ knownArch t = true)
+    (hs : tags star = false) : fileSel U tags t = sel tags t := by
+  have h1 : fileViaMatchTag = true := rfl
+  have hv := known_valid U t h
+  have hne : t ≠ [] := by
+    intro h0; subst h0; simp [validName] at hv
+  unfold fileSel
+  rw [h1]
+  simp only [if_true]
+  rw [matchTag_eq U t tags true hne, hv, hs]
+  simp
+
+theorem applyRules_false_iff (U : Nat → Bool) (tags : Tags) (rl : List Bytes) (hs : tags star = false) :
+    applyRules U tags rl fileRules = false ↔ suffixUnselected tags rl := by
+  have hr : fileRules = [1, 2, 3] := rfl
+  rw [hr]
+  unfold suffixUnselected
+  match rl with
+  | [] => simp [applyRules, applyRule]
+  | [t] =>
+    by_cases ho : knownOS t = true
+    · simp [applyRules, applyRule, ho, fileSel_known U tags t (Or.inl ho) hs]
+    · by_cases ha : knownArch t = true
+      · simp [applyRules, applyRule, ho, ha, fileSel_known U tags t (Or.inr ha) hs]
+      · simp [applyRules, applyRule, ho, ha]
+  | a :: o :: rest =>
+    by_cases h1 : knownOS o = true ∧ knownArch a = true
+    · have e1 := fileSel_known U tags o (Or.inl h1.1) hs
+      have e2 := fileSel_known U tags a (Or.inr h1.2) hs
+      simp only [applyRules, applyRule, h1.1, h1.2, Bool.and_self, if_true, e1, e2]
+      constructor
+      · intro h
+        left
+        refine ⟨a, o, rest, rfl, h1.1, h1.2, ?_⟩
+        cases hso : sel tags o <;> cases hsa : sel tags a <;> simp_all
+      · rintro (⟨a', o', rest', heq, _, _, hsel⟩ | ⟨t, rest', heq, _, hsel⟩)
+        · simp only [List.cons.injEq] at heq
+          obtain ⟨rfl, rfl, _⟩ := heq
+          rcases hsel with h | h <;> simp [h]
+        · simp only [List.cons.injEq] at heq
+          obtain ⟨rfl, _⟩ := heq
+          simp [hsel]
+    · have h1' : (knownOS o && knownArch a) = false := by
+        cases h2 : knownOS o <;> cases h3 : knownArch a <;> simp_all
+      by_cases ho : knownOS a = true
+      · have e := fileSel_known U tags a (Or.inl ho) hs
+        simp only [applyRules, applyRule, h1', Bool.false_eq_true, if_false, ho, if_true, e]
+        constructor
+        · intro h; right; exact ⟨a, o :: rest, rfl, Or.inl ho, h⟩
+        · rintro (⟨a', o', rest', heq, h2, h3, _⟩ | ⟨t, rest', heq, _, hsel⟩)
+          · simp only [List.cons.injEq] at heq
+            obtain ⟨rfl, rfl, _⟩ := heq
+            exact absurd ⟨h2, h3⟩ h1
+          · simp only [List.cons.injEq] at heq
+            obtain ⟨rfl, _⟩ := heq
+            exact hsel
+      · by_cases ha : knownArch a = true
+        · have e := fileSel_known U tags a (Or.inr ha) hs
+          simp only [applyRules, applyRule, h1', Bool.false_eq_true, if_false, ho, ha, if_true, e]
+          constructor
+          · intro h; right; exact ⟨a, o :: rest, rfl, Or.inr ha, h⟩
+          · rintro (⟨a', o', rest', heq, h2, h3, _⟩ | ⟨t, rest', heq, _, hsel⟩)
+            · simp only [List.cons.injEq] at heq
+              obtain ⟨rfl, rfl, _⟩ := heq
+              exact absurd ⟨h2, h3⟩ h1
+            · simp only [List.cons.injEq] at heq
+              obtain ⟨rfl, _⟩ := heq
+              exact hsel
+        · simp only [applyRules, applyRule, h1', Bool.false_eq_true, if_false, ho, ha]
+          constructor
+          · intro h; exact absurd h (by simp)
+          · rintro (⟨a', o', rest', heq, h2, h3, _⟩ | ⟨t, rest', heq, hk, _⟩)
+            · simp only [List.cons.injEq] at heq
+              obtain ⟨rfl, rfl, _⟩ := heq
+              exact absurd ⟨h2, h3⟩ h1
+            · simp only [List.cons.injEq] at heq
+              obtain ⟨rfl, _⟩ := heq
+              rcases hk with hk | hk
+              · exact absurd hk ho
+              · exact absurd hk ha
+
+theorem matchFile_false_iff (U : Nat → Bool) (name : Bytes) (tags : Tags) :
+    matchFile U name tags = false ↔
+      tags star = false ∧ ∃ rl, fileSegsRev name = some rl ∧ suffixUnselected tags rl := by
+  have h1 : fileStarFirst = true := rfl
+  unfold matchFile
+  rw [h1, fileStar_eq]
+  cases hs : tags star with
+  | true => simp
+  | false =>
+    simp only [Bool.true_and, Bool.false_eq_true, if_false, true_and]
+    cases hf : fileSegsRev name with
+    | none => simp
+    | some rl =>
+      simp only [Option.some.injEq, exists_eq_left']
+      exact applyRules_false_iff U tags rl hs
+
+theorem matchFile_star (U : Nat → Bool) (name : Bytes) (tags : Tags) (hs : tags star = true) :
+    matchFile U name tags = true := by
+  have h1 : fileStarFirst = true := rfl
+  unfold matchFile
+  rw [h1, fileStar_eq, hs]
+  simp
+
 end GIV.C19
